@@ -717,7 +717,10 @@ func (ex *Exec) contractCall(key string, spec *FuncSpec, callee *ssa.Function, t
 		}
 	}
 	// ghost arguments
-	if len(spec.GhostParam) > 0 {
+	bindGhostArgs := func() {
+		if len(spec.GhostParam) == 0 {
+			return
+		}
 		var hint *CallHint
 		if top := ex.vc.spec; top != nil {
 			for _, h := range top.Calls {
@@ -741,7 +744,13 @@ func (ex *Exec) contractCall(key string, spec *FuncSpec, callee *ssa.Function, t
 			}
 		}
 	}
+	bindGhostArgs()
 	ex.concCallEnter(spec, ev, pos)
+	if ex.vc.conc && len(spec.Lock) > 0 {
+		// a locking callee acquires the mutex first: the ghost views the caller passes are the ones chosen at
+		// that acquisition (the caller's own ghost parameters were re-chosen there)
+		bindGhostArgs()
+	}
 	// axioms about the uninterpreted functions the callee's contract mentions
 	for _, ax := range ex.vc.w.Contracts.axiomsFor(spec) {
 		seen := false
